@@ -83,7 +83,7 @@ CHECKS = {
  'C16': dict(
    category='model_checking', design_ref='DESIGN.md 5 C16',
    technique='bounded symbolic execution (CrossHair/z3) of smtlib.collect_information / get_sort / get_bv_width on generated well-sorted terms with symbolic numerals (widths, indices, extension amounts, fp sizes); generator typing validated with z3; default constants and every same-sort replacement proposed on the generated scripts sort-checked with z3; differential sort inference against z3 (confirmed by cvc5 under strict parsing) for every operator string occurring in the current source of smtlib.py',
-   text='About 200 operator/argument-kind families covering every operator the inference code knows (bit-vectors incl. indexed operators, FP, Ints/Reals, Core, Strings, Arrays, datatypes, let/quantifier binders) with operands that are variables, constants, applications of declared functions (sort unknown to ddSMT) or nested applications; numerals are symbolic integers, so one explored path covers every width/index value in range. For every subterm: inferred sort is None or the actual sort, inferred width is -1 or the actual width. Differential part (sig_*): for every operator-like string constant of the current smtlib.py source (plus standard operators it does not know) applied to every tuple (arity 1-3) from a pool of variables, constants and applications of all sorts, whenever z3 accepts the term, get_sort is None or z3's sort and get_bv_width is -1 or z3's width (400 000 candidate terms in quick); a disagreement is reported only if cvc5 with strict parsing also types the term differently from ddSMT. Consequence clause (conseq_*): on every generated script with concrete numerals, every proposal of Constants, ReplaceByVariable and IntroduceFreshVariable at every term position yields a script that z3 accepts as well-sorted; proposals inside the region of known finding C16-bound-symbol-out-of-scope (a binder-bound symbol offered outside its binder) are counted separately.',
+   text='About 200 operator/argument-kind families covering every operator the inference code knows (bit-vectors incl. indexed operators, FP, Ints/Reals, Core, Strings, Arrays, datatypes, let/quantifier binders) with operands that are variables, constants, applications of declared functions (sort unknown to ddSMT) or nested applications; numerals are symbolic integers, so one explored path covers every width/index value in range. For every subterm: inferred sort is None or the actual sort, inferred width is -1 or the actual width. Differential part (sig_*): for every operator-like string constant of the current smtlib.py source (plus standard operators it does not know) applied to every tuple (arity 1-3) from a pool of variables, constants and applications of all sorts, whenever z3 accepts the term, get_sort is None or the sort z3 computes and get_bv_width is -1 or the width z3 computes (400 000 candidate terms in quick); a disagreement is reported only if cvc5 with strict parsing also types the term differently from ddSMT. Consequence clause (conseq_*): on every generated script with concrete numerals, every proposal of Constants, ReplaceByVariable and IntroduceFreshVariable at every term position yields a script that z3 accepts as well-sorted; proposals inside the region of known finding C16-bound-symbol-out-of-scope (a binder-bound symbol offered outside its binder) are counted separately.',
    note='Trusted: CrossHair/z3; the generator typing (validated against z3 on concrete instances each run); hash shim T. Numerals 1..99 (digit count forks), repeat counts concrete. Outside: define-sort, parametric datatypes, match, deeper nesting.'),
  'C17': dict(
    category='translation_validation', design_ref='DESIGN.md 5 C17',
